@@ -37,11 +37,23 @@ def graphs(draw, o=None):
         if draw(st.integers(0, 99)) < o.get("p_fail", 0):
             body.insert(draw(st.integers(0, len(body))), ["failflag", name, 3])
         body.append(["out", draw(st.sampled_from(["stdout", "file"]))])
+        if draw(st.integers(0, 99)) < o.get("p_postgate", 0):
+            body.append(["work", 3])   # holds the script AFTER it has written its output ($3 / stdout) and before it exits
         if draw(st.integers(0, 99)) < csum_p:
             body.append(["stamp"])
         return body
+    stem_pair = None
     for i in range(nleaf):
         t = "l%d" % i
+        # sibling targets that share a stem and differ only in the (last) extension: l0.a / l0.b, or l0 / l0.a
+        if stem_pair is not None:
+            t = stem_pair
+            stem_pair = None
+        elif i + 1 < nleaf and draw(st.integers(0, 99)) < o.get("p_stem", 0):
+            if draw(st.integers(0, 1)):
+                t, stem_pair = "l%d.a" % i, "l%d.b" % i
+            else:
+                t, stem_pair = "l%d" % i, "l%d.a" % i
         body = [["dep", 1, ["s0"]]]
         if draw(st.integers(0, 99)) < always_p:
             body.append(["always"])
